@@ -33,6 +33,8 @@ class _VSelector(selectors.DefaultSelector):
             return []
         if timeout is None:
             raise VirtualDeadlock("virtual deadlock: nothing ready, nothing scheduled")
+        if loop.tick:
+            loop._vtime += loop.tick      # optional model of processing latency: every loop iteration takes a little time
         if timeout > 0:
             new = loop._vtime + timeout
             sched = loop._scheduled
@@ -49,6 +51,7 @@ class VLoop(asyncio.SelectorEventLoop):
         sel.loop = self
         self._vtime = 0.0
         self._clock_resolution = 1e-6   # keeps timer comparisons exact for clocks up to ~1e9 s
+        self.tick = 0.0
         self.wall_skew = 0.0
         self.net = net if net is not None else Net()
         self.net.loop = self
@@ -341,7 +344,7 @@ class VPolicy(asyncio.DefaultEventLoopPolicy):
         return loop
 
 
-def run(coro_fn: Callable[[VLoop], Any], net: Optional[Net] = None):
+def run(coro_fn: Callable[[VLoop], Any], net: Optional[Net] = None, tick: float = 0.0):
     """Run ``coro_fn(loop)`` to completion on a fresh VLoop; returns (result, loop).
 
     The loop is closed afterwards; leftover pending tasks are cancelled and reported in
@@ -349,6 +352,7 @@ def run(coro_fn: Callable[[VLoop], Any], net: Optional[Net] = None):
     """
     global CURRENT
     loop = VLoop(net)
+    loop.tick = tick
     try:
         asyncio.set_event_loop(loop)
         result = loop.run_until_complete(coro_fn(loop))
